@@ -10,6 +10,8 @@ Contract of _batchify (requires n = len(X) >= 1, batch_size None or >= 1, perm a
                    X_batch is X[part], affinity_batch is None iff A is None else A[part][:, part]
   ensures          cov == n (parts are disjoint, cover every sample once, in order), (t-1)*b < n <= t*b
 """
+import ast
+
 import numpy as np
 import z3
 
@@ -47,7 +49,9 @@ class BatchifyVC(V.VC):
     def is_none(self, src, node, st):
         if src == "self.batch_size":
             return self.bs_none
-        if src == "affinity_matrix":
+        # the affinity matrix is recognised by what the expression denotes, not by how the variable is called
+        v = st.env.get(node.id) if isinstance(node, ast.Name) else None
+        if src == "affinity_matrix" or (isinstance(v, V.Opaque) and v.tag == "A"):
             return self.aff_none
         raise V.VCError(f"needs contract: {src} is None")
 
